@@ -396,6 +396,8 @@ pub fn kid_view(k: &KeyIdMethod) -> Value {
 pub fn params_view(p: &CertificateParams) -> Value {
 	json!({
 		"dn": dn_view(&p.distinguished_name),
+		// which entries use one of the six named attribute types of the API (the others are custom types)
+		"dnStd": Value::Array(p.distinguished_name.iter().map(|(t, _)| json!(!matches!(t, DnType::CustomDnType(_)))).collect()),
 		"isCa": is_ca_view(&p.is_ca),
 		"ku": Value::Array(p.key_usages.iter().map(|k| json!(ku_index(k))).collect()),
 		"eku": Value::Array(p.extended_key_usages.iter().map(|e| json!(eku_oid(e))).collect()),
